@@ -74,6 +74,20 @@ S_two == [pieces |-> <<Piece(<<Ch(97)>>), Piece(<<Ch(98), Esc("n")>>)>>]        
 S_three == [pieces |-> <<Piece(<<>>), Piece(<<Ch(120)>>), Piece(<<Esc("0")>>)>>]          \* "" "x" "\0"
 StrLits_one == {S_hi}
 StrLits_all == {S_hi, S_empty, S_esc, S_ctl, S_quoted, S_endq, S_raw, S_two, S_three}
+(* ---- bytes of every class: each control byte, 0x7f, some >= 0x80, quote, apostrophe, backslash ---- *)
+SpecialBytes == (0..31) \cup {34, 39, 92, 127, 128, 163, 255}
+HexOf(b) == <<b \div 16, b % 16>>
+Follows == {<<>>, <<Ch(97)>>, <<Ch(49)>>, <<Ch(122)>>}          \* end of the string, 'a', '1' (hexadecimal digits), 'z'
+SimpleEscapes == {"n", "r", "t", "0", "\\", "'", "\""}
+UEscapes == {<<1>>, <<1, 15>>, <<7, 15>>, <<14, 9>>, <<2, 0, 10, 12>>, <<1, 15, 6, 0, 0>>}   \* \u{1} \u{1f} \u{7f} \u{e9} \u{20ac} \u{1f600}
+StrLits_bytes ==
+    {Str1(<<EscX(HexOf(b))>> \o f) : b \in SpecialBytes, f \in Follows}
+    \cup {Str1(<<[e |-> "x", d |-> HexOf(b), up |-> TRUE]>> \o f) : b \in {10, 27, 163, 255}, f \in Follows}
+    \cup {Str1(<<Ch(120), EscX(HexOf(b)), EscX(HexOf(c))>>) : b \in {1, 127}, c \in {2, 255}}
+    \cup {Str1(<<Esc(e)>> \o f) : e \in SimpleEscapes, f \in Follows}
+    \cup {Str1(<<EscU(d)>> \o f) : d \in UEscapes, f \in Follows}
+CharLits_bytes == {CharLit(EscX(HexOf(b))) : b \in SpecialBytes} \cup {CharLit(Esc(e)) : e \in SimpleEscapes}
+                    \cup {CharLit([e |-> "x", d |-> HexOf(b), up |-> TRUE]) : b \in {10, 255}}
 F_a == Piece(<<Ch(97), Ch(46), Ch(112), Ch(110)>>)                                        \* "a.pn"
 F_v == Piece(<<Ch(118), Ch(58), Ch(108), Ch(47), Ch(105), Ch(111), Ch(46), Ch(112), Ch(110)>>)  \* "v:l/io.pn"
 Files_one == {F_a}
